@@ -295,6 +295,8 @@ struct Run {
     sched: validator::Schedule,
     me: validator::PublicKey,
     engine_manager: Arc<EngineManager>,
+    /// number of (re)starts so far
+    incarnation: usize,
 }
 
 const VIEW_TIMEOUT_MS: i64 = 1000;
@@ -330,7 +332,8 @@ impl Run {
                 v2::ChonkyMsg::ReplicaNewView(n) => (3, n.view().number.0, n.verify(g, e, &self.sched).is_ok()),
             };
             self.sent_checks.push(json!({"kind": kind, "view": view.to_string(), "sig_ok": sig_ok, "verifies": ok,
-                                         "by_me": m.key == self.cfg_key()}));
+                                         "by_me": m.key == self.cfg_key(), "msg": self.sh.cmsg(&m.msg),
+                                         "incarnation": self.incarnation}));
         }
     }
 
@@ -342,6 +345,7 @@ impl Run {
 impl Run {
     async fn start_replica(&mut self, ctx: &ctx::Ctx) -> Value {
         *self.engine.0.crashed.lock().unwrap() = false;
+        self.incarnation += 1;
         let r = Replica::start(ctx, self.cfg.clone(), self.out_send.clone()).await;
         let mut r = match r {
             Ok(r) => r,
@@ -536,7 +540,7 @@ async fn run_case(c: &Value) -> Value {
     );
     let mut run = Run {
         sh: sh.clone(), engine, cfg, out_send, clock: clock.clone(), replica: None, dead: false,
-        sent_checks: vec![], sched, me: me.public(), engine_manager: manager.clone(),
+        sent_checks: vec![], sched, me: me.public(), engine_manager: manager.clone(), incarnation: 0,
     };
     let mut obs = vec![run.start_replica(ctx).await];
     for op in c["ops"].as_array().unwrap() {
